@@ -415,6 +415,7 @@ def cancelled_exit_case(ctx, workdir: str, transport_kind: str, k: int, how: str
         if result["leftovers"]:
             ctx.violation("task-left-after-exit", f"{how} during entry (k={k}): tasks left {result['leftovers']}", case)
         return
+    ctx.clause("cancelled-exit-judged")
     want = asyncio.CancelledError if how.startswith("cancel") else TimeoutError
     if how.startswith("cancel-all"):
         ctx.clause("exit-through-task-sweep")
@@ -2028,3 +2029,7 @@ def run(ctx) -> None:
         shutil.rmtree(workdir, ignore_errors=True)
     for clause in ("exit-exception", "no-task-left", "final-registry-on-disk", "connect-failure-no-task-left"):
         ctx.require(clause, 10)
+    # the cancelled-exit cases must reach their oracles (they once all landed in the entry and were only counted)
+    ctx.require("cancelled-exit-judged", 60)
+    ctx.require("exit-through-task-sweep", 30)
+    ctx.require("cancelled-during-entry", 4)
